@@ -20,8 +20,10 @@ NEGATIVE = [  # (cfg, invariant that must be violated, what it shows)
     ("Neg_AppImage_leak.cfg", "PrivNotWritten", "a written private key is caught"),
     ("Neg_AppImage_signpath.cfg", "SigVerifies", "signing something else is caught"),
     ("Neg_AppImage_twopubs.cfg", "SinglePub", "a second public key file is caught"),
+    ("Neg_AppImage_reusepath.cfg", "NeverReusesPath", "-o paths get reused for other images"),
+    ("Neg_AppImage_stale.cfg", "AuthBinds", "keeping the authorization already at the -o path is caught"),
 ]
-ACTIONS = ("SelectZone", "WriteData", "WriteEof", "StartRun", "GenKey", "WritePub", "HashI", "SignI",
+ACTIONS = ("Message", "SelectZone", "WriteData", "WriteEof", "StartRun", "GenKey", "WritePub", "HashI", "SignI",
            "WriteSigI", "Exit")
 
 
@@ -92,6 +94,42 @@ def exec_session(ctx, layouts, plan, tag, rng):
         shutil.rmtree(root, ignore_errors=True)
 
 
+def exec_auth(ctx, layouts, pre, plan, tag, rng):
+    """plan: [{"img", "iter", "out", "relative"}] -> auth trace + infos"""
+    root = os.path.join(ctx.scratch, "auth_%s" % tag)
+    os.makedirs(root)
+    try:
+        contents = contents_of(layouts)
+        s = ai.AuthSession(root, layouts, contents, pre, rng)
+        steps, infos = [], []
+        for st in plan:
+            o, info = s.step(st["img"], st["iter"], st["out"], st.get("relative", True))
+            steps.append(o)
+            infos.append(info)
+        return {"kind": "auth", "contents": contents, "expected": [list(x) for x in s.expected],
+                "steps": steps}, infos
+    finally:
+        shutil.rmtree(root, ignore_errors=True)
+
+
+def auth_signature(clause, at, t, m):
+    st = t["steps"][at - 1] if 1 <= at <= len(t["steps"]) else None
+    if st is None:
+        return "%s|auth" % clause
+    if st["out"] == 0:
+        where = "printed"
+    else:
+        earlier = [x for x in t["steps"][:at - 1] if x["out"] == st["out"]]
+        if earlier:
+            same = t["contents"][earlier[-1]["img"] - 1] == t["contents"][st["img"] - 1]
+            where = "path-written-by-earlier-invocation-for-%s-image" % ("the-same" if same else "another")
+        elif m["pre"][st["out"] - 1].get("found"):
+            where = "path-holding-a-foreign-authorization"
+        else:
+            where = "fresh-path"
+    return "%s|signapp message -o %s" % (clause, where)
+
+
 def neg_checks():
     def one(item):
         cfg, inv, _ = item
@@ -152,10 +190,12 @@ def run(ctx):
     res.add_tlc(rg, "%s behaviours" % gen_cfg)
     mlayouts = [b for b in behaviours if b["kind"] == "layout"]
     msessions = [b for b in behaviours if b["kind"] == "session"]
+    mauths = [b for b in behaviours if b["kind"] == "auth"]
     res.coverage["behaviours_generated"] = len(behaviours)
     res.coverage["model_layouts"] = len(mlayouts)
     res.coverage["model_sessions"] = len(msessions)
-    if not mlayouts or not msessions:
+    res.coverage["model_message_sequences"] = len(mauths)
+    if not mlayouts or not msessions or not mauths:
         raise core.MachineryError("generation produced no layouts or no sessions")
 
     traces, meta = [], {}
@@ -224,6 +264,40 @@ def run(ctx):
     res.coverage["sessions_run_in_a_child_interpreter_via___main__"] = min(n_child, n_sessions)
     res.coverage["model_layouts_signed_by_signonetime"] = len(signed)
 
+    # 3c. model sequences of `signapp message` invocations sharing -o paths
+    order = list(range(len(mauths)))
+    rng.shuffle(order)
+    # those that aim twice at one path with different images first; then the rest up to the budget
+    def reuses(b):
+        seen = {}
+        for st in b["plan"]:
+            if st["out"] and st["out"] in seen and seen[st["out"]] != b["contents"][st["img"] - 1]:
+                return True
+            if st["out"]:
+                seen[st["out"]] = b["contents"][st["img"] - 1]
+        return False
+    order.sort(key=lambda k: 0 if reuses(mauths[k]) else 1)
+    n_auth = min(len(order), ctx.pick(1300, 20000))
+    n_reuse = 0
+    for ai_ in order[:n_auth]:
+        b = mauths[ai_]
+        n_reuse += 1 if reuses(b) else 0
+        classes = sorted(set(b["contents"]))
+        maps = {c: ai.bytemap(rng) for c in classes}
+        keys = {c: image_keys[(keyrot + n) % len(image_keys)] for n, c in enumerate(classes)}
+        keyrot += 1
+        lays = [ai.layout_from_model(mlayouts[next_layout(keys[c])], maps[c], rng) for c in b["contents"]]
+        if contents_of(lays) != list(b["contents"]):
+            raise core.MachineryError("concretisation does not realise the content classes %s" % b["contents"])
+        plan = [{"img": st["img"], "iter": st["iter"], "out": st["out"], "relative": rng.random() < 0.5}
+                for st in b["plan"]]
+        pre = [{"found": bool(x["found"]), "gotiter": 7} for x in b["pre"]]
+        t, infos = exec_auth(ctx, lays, pre, plan, "m%d" % ai_, rng)
+        add(t, {"kind": "auth", "lays": lays, "pre": pre, "plan": plan, "infos": infos, "src": "model"})
+    res.coverage["model_message_sequences_replayed"] = n_auth
+    res.coverage["of_which_reuse_a_path_for_another_image"] = n_reuse
+    res.coverage["behaviours_replayed"] += n_auth
+
     # 4. random tier: 1..8 areas, record lengths 1..255, several zones
     n_rand = ctx.pick(360, 9000)
     for i in range(n_rand):
@@ -251,6 +325,23 @@ def run(ctx):
                          "spaces": rng.random() < 0.3})
         t, infos = exec_session(ctx, lays, plan, "r%d" % i, rng)
         add(t, {"kind": "session", "lays": lays, "plan": plan, "infos": infos, "src": "random"})
+    n_ra = ctx.pick(80, 2000)
+    fake_sig = "3006020101020101"
+    for i in range(n_ra):
+        lays = []
+        while len(lays) < rng.randrange(1, 4):
+            lay = ai.random_layout(rng, small=rng.random() < 0.3)
+            if not lay.mayrefuse:
+                lays.append(lay)
+        pre = [{"found": rng.random() < 0.4, "gotiter": rng.randrange(65536),
+                "signatures": [fake_sig] if rng.random() < 0.5 else []} for _ in range(2)]
+        plan = [{"img": rng.randrange(1, len(lays) + 1),
+                 "iter": rng.choice((0, 1, 2, 65535, rng.randrange(65536))),
+                 "out": rng.choice((0, 1, 1, 2)), "relative": rng.random() < 0.5}
+                for _ in range(rng.randrange(2, 6))]
+        t, infos = exec_auth(ctx, lays, pre, plan, "r%d" % i, rng)
+        add(t, {"kind": "auth", "lays": lays, "pre": pre, "plan": plan, "infos": infos, "src": "random"})
+    res.coverage["random_message_sequences"] = n_ra
     res.coverage["random_layouts"] = n_rand
     res.coverage["random_sessions"] = n_rs
 
@@ -268,6 +359,8 @@ def selftest(accepted):
                 and len(set(t["hins"][0])) >= 2 and all(r["ok"] for r in t["reports"])), None)
     ses = next((t for t in accepted if t["kind"] == "session" and len(t["runs"]) >= 2
                 and len(set(t["contents"])) >= 2 and all(r["hashes"] for r in t["runs"])), None)
+    aut = next((t for t in accepted if t["kind"] == "auth" and len(t["steps"]) >= 2
+                and len(t["expected"]) >= 2), None)
     cases = []
 
     def corrupt(base, fn, clause, at):
@@ -341,6 +434,22 @@ def selftest(accepted):
     def wronghash(t):
         t["runs"][0]["hashes"][0]["digest"][0] ^= 0x80
     corrupt(ses, wronghash, "DigestOk", 1)
+    def stale_hash(t):
+        s = t["steps"][1]
+        s["hash"] = list(t["expected"][t["contents"][s["img"] - 1] % len(t["expected"])])
+    corrupt(aut, stale_hash, "AuthBinds", 2)
+
+    def stale_iter(t):
+        t["steps"][1]["gotiter"] = (t["steps"][1]["iter"] + 1) % 65536
+    corrupt(aut, stale_iter, "AuthBinds", 2)
+
+    def nothing(t):
+        t["steps"][0].update(found=False, hash=[], gotiter=-1)
+    corrupt(aut, nothing, "AuthBinds", 1)
+
+    def afail(t):
+        t["steps"][0]["exit"] = 1
+    corrupt(aut, afail, "AuthCompleted", 1)
     if not cases:
         return 0
     verdicts, _ = tlc.validate("TraceAppImage", "Trace_AppImage.cfg", [t for t, _ in cases], shards=1)
@@ -384,6 +493,8 @@ def judge(ctx, res, traces, meta):
         m = meta[t["id"]]
         if m["kind"] == "layout":
             classes.add("layout " + m["lay"].klass() + " " + m["src"])
+        elif m["kind"] == "auth":
+            classes.add("auth steps=%d %s" % (len(m["plan"]), m["src"]))
         else:
             classes.add("session runs=%d %s%s" % (len(m["plan"]), m["src"],
                                                   " child" if m["plan"][0].get("child") else ""))
@@ -398,7 +509,21 @@ def judge(ctx, res, traces, meta):
         if clause.startswith("Machinery:") or clause == "Stuck":
             raise core.MachineryError("trace %d (%s): %s at %s -- harness and specification disagree: %s" % (
                 t["id"], m["src"], clause, at, json.dumps(replay_data(m))[:600]))
-        if m["kind"] == "layout":
+        if m["kind"] == "auth":
+            st = t["steps"][at - 1] if 1 <= at <= len(t["steps"]) else {}
+            info = m["infos"][at - 1] if 1 <= at <= len(m["infos"]) else {}
+            want = t["expected"][t["contents"][st["img"] - 1] - 1] if st else []
+            res.violation(auth_signature(clause, at, t, m),
+                          "%s at invocation %d of %d (argv %s): exit %s; the authorization %s embeds hash %s "
+                          "iteration %s, the image given hashes to %s and iteration %s was asked for; earlier "
+                          "invocations: %s" % (
+                              clause, at, len(t["steps"]), info.get("argv"), st.get("exit"),
+                              "printed" if st.get("out") == 0 else "at the -o path",
+                              bytes(st.get("hash", [])).hex() or "<none>", st.get("gotiter"),
+                              bytes(want).hex(), st.get("iter"),
+                              [[x["img"], x["iter"], x["out"]] for x in t["steps"][:max(at - 1, 0)]]),
+                          {"verdict": v, **replay_data(m)})
+        elif m["kind"] == "layout":
             via = t["reports"][at - 1]["via"] if 1 <= at <= len(t["reports"]) else "sha256-input"
             rep = m["reports"][at - 1] if 1 <= at <= len(m["reports"]) else {}
             res.violation(layout_signature(clause, via, m["lay"]),
@@ -430,7 +555,11 @@ def judge(ctx, res, traces, meta):
         if key in shown:
             continue
         shown[key] = 1
-        if m["kind"] == "layout":
+        if m["kind"] == "auth":
+            res.sample({"source": m["src"], "pre": m["pre"], "plan": m["plan"], "contents": t["contents"],
+                        "steps": [[s["img"], s["iter"], s["out"], s["exit"], s["found"],
+                                   bytes(s["hash"]).hex(), s["gotiter"]] for s in t["steps"]]}, cap=8)
+        elif m["kind"] == "layout":
             res.sample({"source": m["src"], "hex": ai.hex_text(m["lay"])[:400], "class": m["lay"].klass(),
                         "expected": bytes(t["expected"]).hex(),
                         "reports": [[r["via"], r["ok"], bytes(r["digest"]).hex()] for r in t["reports"]]}, cap=8)
@@ -446,6 +575,8 @@ def judge(ctx, res, traces, meta):
 def replay_data(m):
     if m["kind"] == "layout":
         return {"kind": "layout", "layout": m["lay"].to_json()}
+    if m["kind"] == "auth":
+        return {"kind": "auth", "layouts": [x.to_json() for x in m["lays"]], "pre": m["pre"], "plan": m["plan"]}
     return {"kind": "session", "layouts": [x.to_json() for x in m["lays"]], "plan": m["plan"]}
 
 
@@ -459,6 +590,13 @@ def replay(ctx, path):
         t = ai.trace_of_layout(1, lay, reports, hins, lay.total() <= 40, pareas)
         shown = {"hex": ai.hex_text(lay)[:2000], "expected": bytes(t["expected"]).hex(),
                  "reports": [[r["via"], r["ok"], bytes(r["digest"]).hex()] for r in reports]}
+    elif data["kind"] == "auth":
+        lays = [ai.Layout.from_json(x) for x in data["layouts"]]
+        t, infos = exec_auth(ctx, lays, data["pre"], data["plan"], "replay", ctx.rng)
+        t["id"] = 1
+        shown = {"pre": data["pre"], "plan": data["plan"], "expected": [bytes(x).hex() for x in t["expected"]],
+                 "steps": [dict(s, hash=bytes(s["hash"]).hex()) for s in t["steps"]],
+                 "stdout": [i["stdout"] for i in infos]}
     else:
         lays = [ai.Layout.from_json(x) for x in data["layouts"]]
         t, infos = exec_session(ctx, lays, data["plan"], "replay", ctx.rng)
